@@ -15,6 +15,7 @@ Scenarios == {"parse", "parse-assign", "copy", "copy-assign", "move-assign", "pu
 Cases == { [scn |-> s, doc |-> d, text |-> Docs[d]] : s \in Scenarios, d \in DocNames } \cup
          { [scn |-> "patch", doc |-> p, text |-> Docs["small"], patch |-> Patches[p]] : p \in DOMAIN Patches } \cup
          { [scn |-> "schema", doc |-> "small", text |-> Docs["small"]] } \cup
+         { [scn |-> s, doc |-> "small", text |-> Docs["small"]] : s \in {"stateful-w-copy", "stateful-w-assign", "stateful-w-insert"} } \cup     \* wide characters on a size-checking allocator
          \* copy / move assignment over an existing value, for every (existing kind, assigned kind) pair
          { [scn |-> "assign-kind", doc |-> k1 \o "<-" \o k2, text |-> Docs["small"]] : k1 \in Kinds, k2 \in Kinds }
 Init == phase = 0 /\ c = [scn |-> "none"]
